@@ -525,6 +525,21 @@ func init() {
 							nn = 1
 						}
 						c := gen.RandAppendCtor(r, nn, false, r.Intn(3) == 0)
+						if r.Intn(6) == 0 { // a constraint over several variables never seen before, in any order
+							k := 2 + r.Intn(3)
+							lits := make([]int, k)
+							for j, p := range r.Perm(k) {
+								lits[j] = cur + 1 + p
+								if r.Intn(2) == 0 {
+									lits[j] = -lits[j]
+								}
+							}
+							if r.Intn(2) == 0 {
+								c = gen.Clause(lits...)
+							} else {
+								c = gen.Ctor("atleast", lits, nil, 1+r.Intn(k))
+							}
+						}
 						if len(cons) > 0 && r.Intn(6) == 0 {
 							// a conjunction of literals that falsifies an existing constraint: every literal is
 							// individually possible, the contradiction only shows through propagation
@@ -597,11 +612,21 @@ func init() {
 				}
 				cfg := gen.Cfg(false, 0, 0, false, false, true)
 				var ev []gen.M
+				var prev []int
 				for d := 0; d < rounds; d++ {
 					k := r.Intn(4)
 					ls := make([]int, 0, k)
 					for j := 0; j < k; j++ {
 						ls = append(ls, gen.RandLit(r, nv))
+					}
+					if len(prev) > 0 && r.Intn(2) == 0 { // contradict an assumption of an earlier round
+						ls = append(ls, -prev[r.Intn(len(prev))])
+					}
+					if r.Intn(5) == 0 {
+						ls = ls[:0] // a round without assumptions in between
+					}
+					if len(ls) > 0 {
+						prev = append([]int{}, ls...)
 					}
 					ev = append(ev, gen.M{"op": "assume", "ls": ls}, gen.Op("solve"))
 				}
